@@ -219,8 +219,23 @@ class Handles:
                     continue
                 h = e.a["handle"]
                 loc = self.handle_location(h, tr)
-                if loc is None or loc[0] == "win":
-                    continue        # window entries: their removal / re-arming is the business of the retry rules
+                if loc is None:
+                    continue
+                if loc[0] == "win":
+                    # window entries: their removal / re-arming is the business of the retry rules - except on the loss path of a
+                    # registry that survives a non-clean loss: an alarm cancelled there and left stored is cancelled again by the
+                    # next loss, if that comes before the CONNACK has re-armed it
+                    if tr.kind != "LOSS" or not self.lc.loss_keeps(loc[1]):
+                        continue
+                    later_w = evs[i + 1:]
+                    cleared = any(x.kind == "SETATTR" and x.a["obj"] == h[1] and x.a["field"] == h[2] for x in later_w) or \
+                        any(x.kind == "SETATTR" and x.a["obj"] == h[1] and x.a["field"] == h[2] and x.a.get("prev") == h for x in evs[:i])
+                    if not cleared and self.guarded(e, h) != "active":
+                        key = (e.file, e.line, loc)
+                        if key not in seen:
+                            seen.add(key)
+                            yield tr, e, loc, tr, e
+                    continue
                 later = evs[i + 1:]
                 renewed = any(x.kind == "SETATTR" and x.a["obj"] == h[1] and x.a["field"] == h[2] for x in later)
                 # handle, x.alarm = x.alarm, None ... handle.cancel(): the location was cleared before the cancel; what is cancelled is
